@@ -221,6 +221,34 @@ def k4_file_vs_file(actual: Optional[str], ref: Optional[str], many: bool) -> bo
     return (code == 0) == want
 
 
+def k4_encoding(ei: List[int], given: int) -> bool:
+    """
+    pre: len(ei) <= 3 and all(0 <= i < len(EXT_ALPHABET) for i in ei) and 0 <= given < 4
+    post: __return__
+    """
+    from tdda.referencetest.utils import get_encoding
+    ext = ''
+    for i in ei:
+        for k in range(len(EXT_ALPHABET)):
+            if i == k:
+                ext += EXT_ALPHABET[k]
+                break
+    path = '/ref/name' + ('.' + ext if ext else '')
+    for k in range(4):
+        if given == k:
+            given = k
+            break
+    enc = [None, 'utf-8', 'UTF8', 'latin-1'][given]
+    got = get_encoding(path, enc)
+    if enc is not None:
+        return got == ['utf-8', 'utf-8', 'utf-8', 'latin-1'][given]
+    # no encoding given: pdf references are read as iso-8859-1, everything else as utf-8
+    return got == ('iso-8859-1' if ext.lower() == 'pdf' else 'utf-8')
+
+
+EXT_ALPHABET = 'pdfPtx'
+
+
 def _obs():
     obs = []
     what = ('check_strings passes exactly when the reference rule does: same number of lines after removals, '
@@ -284,6 +312,10 @@ def _obs():
                       'matches of p and l~l\', r~r\')',
                       'pattern %r; a, e: symbolic strings len<=%d over the alphabet %r' % (PATTERNS[name][0], nc, alpha),
                       param={'pattern': name, 'alpha': alpha, 'nc': nc}, timeout=to, tier=tier, lift='lift_patterns'))
+    obs.append(Ob('K4', 'k4_encoding', 'the encoding a reference is read with: the one given (utf8 normalised), else '
+                  'iso-8859-1 for .pdf names and utf-8 for every other name, extensionless names included',
+                  'extension: every string len<=3 over %r (symbolic index per position); encoding None/utf-8/UTF8/'
+                  'latin-1' % EXT_ALPHABET, timeout=300))
     obs.append(Ob('K4', 'k4_string_vs_file', 'check_string_against_file hands check_strings exactly splitlines() of '
                   'both texts and returns its verdict; a missing reference is a failure',
                   'actual, reference: any strings len<=2 (reference may be absent)', param={'nc': 2}, timeout=300,
